@@ -815,9 +815,21 @@ func (t *tree) boolAttr(attrs map[string]string, key string, defaultValue bool) 
 }
 
 // parseQuotedExpr ignores the current lex/parse state and parses the given
-// string as a standalone expression.
+// string (an attribute value, or the expression of a {css} command) as a
+// standalone expression.  Its items are positioned in the enclosing file, as if
+// the expression ended where the most recently read token of its tag ends, so
+// that its nodes and any error in it point at that tag of that file, not at
+// line 1 of a nameless input.
 func (t *tree) parseQuotedExpr(str string) ast.Node {
-	var tt = &tree{lex: lexExpr("", str)}
+	var tok = t.token[0]
+	if t.peekCount > 0 {
+		tok = t.token[t.peekCount-1]
+	}
+	var outer, base = t.text, int(tok.pos) - len(str)
+	if base < 0 || int(tok.pos) > len(outer) {
+		outer, base = "", 0 // no enclosing text to point into
+	}
+	var tt = &tree{name: t.name, text: t.text, lex: lexExprAt(t.name, str, outer, ast.Pos(base))}
 	defer tt.lex.drain()
 	return tt.parseExpr(0)
 }
